@@ -147,6 +147,16 @@ func (c *Cluster) NodeByAddr(addr string) *Node {
 	return nil
 }
 
+// NodeByAddrID finds a node by its id.
+func (c *Cluster) NodeByAddrID(id string) *Node {
+	for _, n := range c.Nodes {
+		if n.ID == id {
+			return n
+		}
+	}
+	return nil
+}
+
 // Group returns the group of a slot.
 func (c *Cluster) Group(slot int) int { return slot * c.Groups / NumSlots }
 
